@@ -14,6 +14,7 @@ namespace drvsim {
 
 // The script driving the solver stub for the current run (set by the harness).
 extern sim::Json g_script;
+extern int g_cb_calls;    // callback invocations of the current run (reset before every run)
 extern int g_dual_mode;   // value class of the dual tags (see SimBackend::ConTag); set from script.dual_mode before every run
 // Model/call record of the current run (owned by the harness, shared with ModelAPI).
 extern StubModel g_stub;
